@@ -60,9 +60,10 @@ func (srv *Server) Serve(listen chan error) error {
 	}
 	srv.logger.Debug("Unix socket is listening", "addr", srv.addr)
 
+	// Closing the listener removes the socket file. It must not be removed once
+	// more afterwards: by then the path may belong to the next run.
 	defer func() {
 		_ = srv.Shutdown()
-		_ = os.Remove(srv.addr)
 	}()
 	for {
 		conn, err := srv.listener.Accept()
